@@ -34,7 +34,10 @@ DRIVER_TIMEOUT = 900
 RULE = ("sequential histories of 5-80 ops (QueryRow 30%, QueryRowIndex 20% [CachedConn level], Exec 20% with the "
         "changed keys named (10% deliberately ill-named), DelCache, SetCache (85% with the current row), Advance of "
         "1 s..4000 s, Corrupt) over 4 primary keys / 3 index values, expiries (100,10) (20,5) (60,10) (3600,60) "
-        "(7d,60) s, jitter draws u=m/1024 scripted per op; ~22% of the histories inject GET/SET/DEL faults per "
+        "(7d,60) s, and in 30% of the sequential histories a long configured expiry / notFoundExpire from {1h, 1d, 7d, 90d, "
+        "101d, 112d, 180d, 1y, 10y} with draws at both ends and the middle (m = 0, 512, 1023) and advances around "
+        "0.95e / 1.05e; jitter draws u=m/1024 scripted per op; the TTL of every key is read back from miniredis after "
+        "every op (0 = no expiry); ~22% of the histories inject GET/SET/DEL faults per "
         "Redis command (per node in the cluster); 40% CachedConn over one node, 35% cache node, 25% 3-node cluster "
         "with the observed consistent-hash placement; one quarter of the cases are CONCURRENT (level conc, CachedConn): "
         "2-8 readers of one uncached key plus independent keys, gated query function / SET / exec function / DEL, "
@@ -44,8 +47,9 @@ RULE = ("sequential histories of 5-80 ops (QueryRow 30%, QueryRowIndex 20% [Cach
         "not-found read and one Exec; distinct = distinct canonical case JSON")
 TRUSTED = ["miniredis as Redis (GET/SET EX/DEL, FastForward as the server clock); faults injected with its pre-command hook",
            "float64 evaluation of mathx.Unstable.AroundDuration and math.Ceil(d.Seconds()) agrees with the exact rational "
-           "evaluation in the model on the generated draws u=m/1024 and whole-second expiries (differences < 1 ns never "
-           "cross a second boundary there)",
+           "evaluation in the model on the generated draws u=m/1024 and whole-second expiries (the exact value is a "
+           "multiple of 1/10240 s; the float64 error stays below 1 us even for 10 y, so it never crosses a second boundary "
+           "except where the exact value is a whole second: the generator keeps only m = 0 and m = 512 of those)",
            "the abstract timer played by the cache driver (due tick = tick + delay/1s) is what the timing wheel "
            "implements (C10); in the sqlc driver the real wheel never fires inside a case (cases last milliseconds, "
            "slow ones are rerun)",
@@ -67,6 +71,19 @@ ASSUMPTIONS = ["c06_one_query_in_flight is proved from C18's transcription of si
 
 NPK, NIX = 4, 3
 EXPIRIES = [(100, 10), (20, 5), (60, 10), (3600, 60), (604800, 60)]
+DAY = 86400
+# the TTL stream: long configured expiries (WithExpire / WithNotFoundExpire), 1 h .. 10 y; 101 d and above exceed
+# 2^63 ns / 1050 (an integer-arithmetic jitter in per-mille would overflow there), 10 y exceeds 2^53 ns
+LONG_EXPIRIES = [3600, DAY, 7 * DAY, 90 * DAY, 101 * DAY, 112 * DAY, 180 * DAY, 365 * DAY, 3650 * DAY]
+
+
+def _long_draw(rng, e):
+    """draws at both ends and the middle of [0,1), and random ones whose exact jittered duration is not a whole
+    number of seconds (there the float64 evaluation in Go and the exact rational one could round differently)"""
+    while True:
+        m = rng.choice([0, 512, 1023]) if rng.random() < 0.6 else rng.randrange(1024)
+        if m in (0, 512) or (e * (10752 - m)) % 10240 != 0:
+            return m
 
 
 def _universe():
@@ -87,8 +104,11 @@ def _draws(rng, n):
     return [rng.choice([0, 512, 1023, 1, 1022]) if rng.random() < 0.2 else rng.randrange(1024) for _ in range(n)]
 
 
-def gen_case(rng, level, faulty, long_chain=False):
+def gen_case(rng, level, faulty, long_chain=False, long_ttl=False):
     expire, nfexpire = rng.choice(EXPIRIES)
+    if long_ttl:
+        expire = rng.choice(LONG_EXPIRIES)
+        nfexpire = rng.choice(LONG_EXPIRIES) if rng.random() < 0.5 else rng.choice([10, 60])
     nn = 3 if level == "cluster" else 1
     nops = rng.randint(5, 80)
     db = {}
@@ -165,6 +185,15 @@ def gen_case(rng, level, faulty, long_chain=False):
         else:
             k = rng.choice(_universe()) if level == "sqlc" else ["pk", rng.randrange(NPK)]
             ops.append({"op": "corrupt", "key": k, "gi": rng.randrange(5), "ttl": rng.choice([5, 50, 500])})
+    if long_ttl:
+        for o in ops:
+            if "u" in o:
+                # the first draw jitters expire (value / index entry), the second notFoundExpire or expire
+                o["u"] = [_long_draw(rng, expire) if rng.random() < 0.5 else _long_draw(rng, nfexpire) for _ in o["u"]]
+                o["u"] = [m if ((expire * (10752 - m)) % 10240 != 0 and (nfexpire * (10752 - m)) % 10240 != 0) or m in (0, 512)
+                          else 1023 for m in o["u"]]
+            if o["op"] == "adv" and level == "sqlc" and rng.random() < 0.3:
+                o["dt"] = rng.choice([expire // 2, expire * 19 // 20 - 1, expire * 19 // 20 + 1, expire * 21 // 20 + 6, nfexpire, DAY])
     c = {"level": level, "expire": expire, "nfexpire": nfexpire, "nnodes": nn, "ops": ops}
     return c
 
@@ -273,7 +302,8 @@ def generate(rng, tier, n):
         level = "sqlc" if x < 0.40 else ("node" if x < 0.75 else "cluster")
         faulty = rng.random() < 0.22
         long_chain = faulty and level != "sqlc" and rng.random() < (0.5 if tier != "quick" else 0.3)
-        cases.append(gen_case(rng, level, faulty, long_chain))
+        long_ttl = rng.random() < 0.3
+        cases.append(gen_case(rng, level, faulty and not long_ttl, long_chain and not long_ttl, long_ttl))
     return cases
 
 
@@ -296,6 +326,13 @@ def search(rng, problems):
             out.append({"level": level, "expire": 3600, "nfexpire": 60, "nnodes": nn, "ops": ops})
     for _ in range(40):
         out.append(gen_case(rng, rng.choice(["node", "cluster"]), True, True))
+    for e in LONG_EXPIRIES:
+        for m in (0, 512, 1023):
+            out.append({"level": "sqlc", "expire": e, "nfexpire": e, "nnodes": 1, "ops": [
+                {"op": "exec", "w": ["put", 1, 0, 7], "keys": [["pk", 1], ["ix", 0]]},
+                {"op": "qrow", "id": 1, "u": [m]}, {"op": "qrow", "id": 2, "u": [m]},
+                {"op": "del", "keys": [["pk", 1]]}, {"op": "qidx", "ix": 0, "u": [m, m]}, {"op": "qidx", "ix": 1, "u": [m, m]},
+                {"op": "set", "key": ["pk", 3], "val": ["row", 3, 2, 9], "u": [m]}]})
     for kind in ("stampede", "cancel", "overlap", "mixed"):
         for _ in range(15):
             out.append(gen_conc(rng, kind))
@@ -387,7 +424,7 @@ def cop(o):
     if k == "set":
         return "XSet %s %s %s" % (ckey(o["key"]), cval_in(o["val"]), cZ(u[0]))
     if k == "adv":
-        return "XAdv %s" % cnat(o["dt"])
+        return "XAdv %s" % cZ(o["dt"])
     if k == "fault":
         nd = o.get("node", -1)
         return "XFault %s %s %s %s" % (copt(None if nd < 0 else cnat(nd)), cbool(o["g"]), cbool(o["s"]), cbool(o["d"]))
@@ -534,6 +571,14 @@ def bucket(case, obs):
             out.append("conc:stale-entry-after-race")
         return out
     out = ["level:" + case["level"], "ops<=%d" % (((len(case["ops"]) + 19) // 20) * 20)]
+    for name, e in (("expire", case["expire"]), ("nfexpire", case["nfexpire"])):
+        if e >= 3600:
+            out.append("%s:%s" % (name, "%dd" % (e // DAY) if e >= DAY else "1h"))
+    if case["expire"] >= 3600 and isinstance(obs, dict) and "ops" in obs:
+        if any(d[3] > 0 for o in obs["ops"] for d in o["dump"]):
+            out.append("ttl-read-back")
+        if any(d[3] == 0 for o in obs["ops"] for d in o["dump"]):
+            out.append("ttl:NO-EXPIRY")
     for k in sorted({o["op"] for o in case["ops"]}):
         out.append("op:" + k)
     if any(o["op"] == "fault" for o in case["ops"]):
